@@ -12,6 +12,9 @@ def exc_obj(label, cls_name, tb=None):
     o = Obj(None, {'__class_name__': cls_name}, label=label)
     o.fields['__traceback__'] = tb if tb is not None else \
         T('tb', T('obj', label, o.id))
+    if cls_name == 'OSError':
+        # which error it is stays open: code that looks decides per errno
+        o.fields['errno'] = T('sym', '%s.errno' % label)
 
     def with_tb(interp, a, kw):
         interp.effect('with_traceback', label, interp.termify(a[0]))
